@@ -294,14 +294,14 @@ fn engine_ctor(args: &Args) -> i32 {
                     continue;
                 }
                 let combos: Vec<(u8, usize)> = if full && matches!(c, 0 | 1 | 2 | 4 | 6) {
-                    (0..5u8)
+                    (0..6u8)
                         .flat_map(|r| (0..4usize).map(move |k| (r, k)))
                         .collect()
                 } else {
                     (0..rot)
                         .map(|k| {
                             (
-                                ((idx + seed + k) % 5) as u8,
+                                ((idx + seed + k) % 6) as u8,
                                 ((idx / 5 + seed + k * 3) % 4) as usize,
                             )
                         })
